@@ -66,6 +66,9 @@ def op_cases(tier):
             for extra in ([], [P("q", "query", False, "string")], [P("X-H", "header", True, "string")],
                           [P("q", "query", False, "string"), P("X-H", "header", True, "string")]):
                 out.append(ops.op("post", "/b", extra, {"kind": bk, "required": req}, {"200": "json-model"}))
+    # operations carrying the annotations a document may put on them (deprecated)
+    for body in (None, {"kind": "json-ref", "required": True}):
+        out.append(dict(ops.op("post" if body else "get", "/old/{id}", [P("id", "path", True, "integer"), P("q", "query", False, "string")], body, {"200": "json-model"}), deprecated=True))
     for m in ("get", "put", "post", "delete", "patch", "head", "options", "trace"):
         out.append(ops.op(m, "/m/{id}", [P("id", "path", True, "integer"), P("q", "query", False, "string")],
                           {"kind": "json-ref", "required": True} if m in ("put", "post", "patch") else None, {"200": "json-model"}))
